@@ -400,7 +400,8 @@ func (m *vestMachine) actSend() {
 	}
 	if m.on["C08"] {
 		// every documented precondition holds => the send must be accepted (in particular the exact remainder)
-		if !res.OK() && ps != nil && !amt.IsNil() && !amt.IsNegative() && amt.LTE(avail) && !toExisted && !to.Equals(owner) &&
+		// (positive amounts only: the property does not say whether a zero-amount send must be accepted)
+		if !res.OK() && ps != nil && !amt.IsNil() && amt.IsPositive() && amt.LTE(avail) && !toExisted && !to.Equals(owner) &&
 			!m.v.App.BankKeeper.BlockedAddr(to) {
 			if _, ok := m.vtype(ps.VType); ok {
 				m.fail("send of %s from pool %q holding %s to the fresh address %s was rejected: %v %v", amt, pool, avail, to, res.Err, res.Panic)
